@@ -20,6 +20,10 @@ func VerifC20SBox() {
 	// lane independence: the result bit equals the s-box of the single-lane words
 	sL, sH := sBox(la, ha, lb, hb)
 	verifAssert("sbox.lanewise", (rL>>j)&1 == sL&1 && (rH>>j)&1 == sH&1)
+	// on EVERY pair of words (codes (0,0) included, which the trit truth table does not cover) the round
+	// function is the bitwise one the property names: l' = ~(aL & (aH ^ bL)), h' = (aL ^ bH) | (aL & (aH ^ bL))
+	d := aL & (aH ^ bL)
+	verifAssert("sbox.bitwise.formula", rL == ^d && rH == (aL^bH)|d)
 	if (la|ha) == 1 && (lb|hb) == 1 { // both valid
 		a, b := verifDec(la, ha), verifDec(lb, hb)
 		want := verifTruth[int(a)+4*int(b)+5]
